@@ -200,6 +200,10 @@ json_strings = st.one_of(
     # very many brackets inside one string (nesting counted on the raw text would see a deep document)
     st.sampled_from(['[' * 2500, '{' * 2100 + '[' * 300, '[{' * 1300, ']' * 2500 + '[' * 2500, '"[' * 1100]),
     st.builds(lambda n, t: repr(n) + t, gv.finite_doubles, st.sampled_from(['', ',', ']', '}', '.0', '.0,', '.00]'])),
+    # a number-like token inside a string, surrounded the way JSON surrounds numbers (a clean-up of the output text must not reach into strings)
+    st.builds(lambda pre, tok, post: pre + tok + post, st.sampled_from(['', ' ', '[', ',', ':', 'a ', 'x:', '[1,', 'outside: ', '{"k":', ': ']),
+              st.sampled_from(['-0', '-0.0', '0', '1.0', '-1.50', '1e5', '-0e0', '10.00', '2.0', '-00', '+0', '0.0e+00', '1.0E5']),
+              st.sampled_from(['', ' ', ',', ']', '}', ' C', ', 5]', '}x', ',b', ' ]'])),
 )
 json_numbers = st.one_of(gv.finite_doubles, gv.finite_doubles, st.integers(-(2 ** 53) + 1, 2 ** 53 - 1), st.integers(-100, 100),
                          st.integers(-1000, 1000).map(float))
